@@ -113,9 +113,18 @@ ALIASES = {"==": ["==", "=", "eq", "EQ"], "!=": ["!=", "<>", "ne"], "<": ["<", "
            "is_null": ["is_null", "isnull"], "is_not_null": ["is_not_null", "notnull", "isnotnull"]}
 
 
-def literal_pool(t: str, present: List[Any]) -> List[Any]:
+CROSS = {
+    "date": [dt.datetime(1970, 1, 1, 12, 0), dt.datetime(2024, 2, 29, 0, 0, 1)],
+    "timestamp": [dt.date(1970, 1, 1), dt.date(2024, 2, 29)],
+    "long": [0.5, 1.5], "int": [0.5], "double": [0, 1, 2], "float": [0, 1],
+}
+
+
+def literal_pool(t: str, present: List[Any], cross: bool = False) -> List[Any]:
     vals = [v for v in present if v is not None]
     pool = list(vals) + value_pool(t)
+    if cross:
+        pool = pool + CROSS.get(t, []) * 3
     out = []
     for v in pool:
         if isinstance(v, float) and math.isnan(v):
@@ -129,9 +138,12 @@ def gen_filter_term(rng: random.Random, field: Dict[str, Any], present: List[Any
     class: 'plain' (fully specified semantics) | 'engine' (ordering on a type
     whose ordering the engine may not support: raise-or-correct)."""
     t = field["type"]
-    pool = literal_pool(t, present)
+    cross = t in CROSS and rng.random() < 0.2
+    pool = literal_pool(t, present, cross)
     kind = rng.choice(["eq", "eq_short", "cmp", "cmp", "between", "in", "not_in", "is_null", "is_not_null"])
-    klass = "plain"
+    # literals of another comparable Python type: semantics are the engine's (raise-or-correct, but
+    # identical in every API and with or without pruning)
+    klass = "engine" if cross else "plain"
     if kind == "eq_short":
         return "==", rng.choice(pool), klass
     if kind == "eq":
